@@ -39,6 +39,8 @@ _TABLE = (
     ([1, 'x'], [1, 'x']), (b'', b''), (b'\x00\xff', b'\x00\xff'), (bytearray(b'abc'), b'abc'), ('\xe9 ', '\xe9 '),
     (None, ''), ('"q"', 'q'), ('null', None),
     # backslash-n in the wire form: text with a backslash followed by n, JSON whose string holds a newline, a doubled backslash
+    # spaces, plus signs, ampersands and percent signs (what form encoding touches)
+    ('a b+c&d=e%20f', 'a b+c&d=e%20f'), ({'k': 'v w+x'}, {'k': 'v w+x'}),
     ('C:\\new\\notes', 'C:\\new\\notes'), ({'t': 'line\nbreak'}, {'t': 'line\nbreak'}), ('a\\\\nb', 'a\\\\nb'),
 )
 
